@@ -196,6 +196,34 @@ impl Node {
     }
 }
 
+/// Where an operator instance of a composed topology is observed: a leaf puppet, a tap, or the probe.
+#[derive(Clone, Copy, Debug, PartialEq, Eq)]
+pub enum Link {
+    Puppet(usize),
+    Tap(usize),
+    Probe,
+    Unknown,
+}
+
+#[derive(Clone, Debug)]
+pub enum OpKind {
+    Un(UnOp),
+    Merge,
+    Concat,
+    Combine2,
+    /// flatten over the outer puppet with the given id; `inputs` are the inner sources in emission order
+    Flatten(usize),
+    Share,
+}
+
+/// One operator instance inside a tree, with the links on which its inputs and its output are observed.
+#[derive(Clone, Debug)]
+pub struct OpInst {
+    pub kind: OpKind,
+    pub inputs: Vec<Link>,
+    pub output: Link,
+}
+
 /// What the oracles need to know about a built single-operator topology.
 #[derive(Clone, Debug, Default)]
 pub struct Info {
@@ -207,6 +235,8 @@ pub struct Info {
     pub unop: Option<UnOp>,
     /// flatten: every emission of the outer is the same inner puppet (subscribed once per emission)
     pub repeat_inner: bool,
+    /// composed topologies: every operator instance with its observation links
+    pub ops: Vec<OpInst>,
 }
 
 pub struct Built {
@@ -403,7 +433,8 @@ pub fn build(topo: &Topo, pspecs: &[PuppetSpec], lens: &[usize], probe_specs: &[
         Topo::Tree(node) => {
             let mut next_puppet = 0usize;
             let mut next_tap = 0usize;
-            let out = build_node(
+            let mut ops: Vec<OpInst> = vec![];
+            let (out, root) = build_node(
                 &world,
                 node,
                 "probe",
@@ -413,7 +444,12 @@ pub fn build(topo: &Topo, pspecs: &[PuppetSpec], lens: &[usize], probe_specs: &[
                 &mut next_tap,
                 &mut puppets,
                 &closure_calls,
+                &mut ops,
             );
+            if let Some(r) = root {
+                ops[r].output = Link::Probe;
+            }
+            info.ops = ops;
             let label = node.op_name();
             mk_probes(&world, label, &out, probe_specs, &mut probes, &mut subscribe);
         },
@@ -445,21 +481,29 @@ fn build_node(
     next_tap: &mut usize,
     puppets: &mut Vec<Box<dyn PuppetCtl>>,
     calls: &Arc<AtomicUsize>,
-) -> Src<V> {
+    ops: &mut Vec<OpInst>,
+) -> (Src<V>, Option<usize>) {
     let me = node.op_name();
+    // builds a child, wraps it in a tap unless it is a leaf, and returns the link on which the
+    // child's output (= this node's input) is observed
     let mut child = |n: &Node,
                      next_puppet: &mut usize,
                      next_tap: &mut usize,
-                     puppets: &mut Vec<Box<dyn PuppetCtl>>|
-     -> Src<V> {
-        let s = build_node(world, n, me, pspecs, lens, next_puppet, next_tap, puppets, calls);
+                     puppets: &mut Vec<Box<dyn PuppetCtl>>,
+                     ops: &mut Vec<OpInst>|
+     -> (Src<V>, Link) {
+        let leaf_id = *next_puppet;
+        let (s, idx) = build_node(world, n, me, pspecs, lens, next_puppet, next_tap, puppets, calls, ops);
         if matches!(n, Node::Leaf) {
             // the puppet's own edge already observes this link
-            s
+            (s, Link::Puppet(leaf_id))
         } else {
             let t = *next_tap;
             *next_tap += 1;
-            tap(world, t, &format!("t{}:{}>{}", t, n.op_name(), me), n.op_name(), me, s)
+            if let Some(i) = idx {
+                ops[i].output = Link::Tap(t);
+            }
+            (tap(world, t, &format!("t{}:{}>{}", t, n.op_name(), me), n.op_name(), me, s), Link::Tap(t))
         }
     };
     let _ = below;
@@ -470,28 +514,45 @@ fn build_node(
             let p: Arc<Puppet<V>> = Puppet::new(world, id, below, pspecs[id].clone(), items_for(id, lens[id]));
             let s = p.source();
             puppets.push(Box::new(p));
-            s
+            (s, None)
         },
         Node::Un(u, n) => {
-            let s = child(n, next_puppet, next_tap, puppets);
-            u.apply(s, calls)
+            let (s, l) = child(n, next_puppet, next_tap, puppets, ops);
+            ops.push(OpInst { kind: OpKind::Un(*u), inputs: vec![l], output: Link::Unknown });
+            (u.apply(s, calls), Some(ops.len() - 1))
         },
         Node::Merge(v) => {
-            let srcs: Vec<Src<V>> = v.iter().map(|n| child(n, next_puppet, next_tap, puppets)).collect();
-            Arc::new(callbag::merge(srcs.into_boxed_slice()))
+            let mut srcs: Vec<Src<V>> = vec![];
+            let mut links = vec![];
+            for n in v {
+                let (s, l) = child(n, next_puppet, next_tap, puppets, ops);
+                srcs.push(s);
+                links.push(l);
+            }
+            ops.push(OpInst { kind: OpKind::Merge, inputs: links, output: Link::Unknown });
+            (Arc::new(callbag::merge(srcs.into_boxed_slice())), Some(ops.len() - 1))
         },
         Node::Concat(v) => {
-            let srcs: Vec<Src<V>> = v.iter().map(|n| child(n, next_puppet, next_tap, puppets)).collect();
-            Arc::new(callbag::concat(srcs.into_boxed_slice()))
+            let mut srcs: Vec<Src<V>> = vec![];
+            let mut links = vec![];
+            for n in v {
+                let (s, l) = child(n, next_puppet, next_tap, puppets, ops);
+                srcs.push(s);
+                links.push(l);
+            }
+            ops.push(OpInst { kind: OpKind::Concat, inputs: links, output: Link::Unknown });
+            (Arc::new(callbag::concat(srcs.into_boxed_slice())), Some(ops.len() - 1))
         },
         Node::Combine2(a, b) => {
-            let sa = child(a, next_puppet, next_tap, puppets);
-            let sb = child(b, next_puppet, next_tap, puppets);
+            let (sa, la) = child(a, next_puppet, next_tap, puppets, ops);
+            let (sb, lb) = child(b, next_puppet, next_tap, puppets, ops);
             let c: Src<(V, V)> = Arc::new(callbag::combine!(sa, sb));
             let t = *next_tap;
             *next_tap += 1;
+            ops.push(OpInst { kind: OpKind::Combine2, inputs: vec![la, lb], output: Link::Tap(t) });
             let c = tap(world, t, &format!("t{}:combine>map", t), "combine", "map", c);
-            Arc::new(callbag::map(|(a, b): (V, V)| a.wrapping_add(b))(c))
+            // the adapter map((a, b) -> a + b) is not judged (it has no counterpart among the UnOps)
+            (Arc::new(callbag::map(|(a, b): (V, V)| a.wrapping_add(b))(c)), None)
         },
         Node::Flatten(v) => {
             let id = *next_puppet;
@@ -499,20 +560,24 @@ fn build_node(
             // placeholder so that the outer keeps its position in the puppet list
             let slot = puppets.len();
             let mut items: Vec<(Val, Src<V>)> = vec![];
+            let mut links = vec![];
             let mut inner_puppets: Vec<Box<dyn PuppetCtl>> = vec![];
             for (i, n) in v.iter().enumerate() {
-                let s = child(n, next_puppet, next_tap, &mut inner_puppets);
+                let (s, l) = child(n, next_puppet, next_tap, &mut inner_puppets, ops);
                 items.push((Val::one(i as i64), s));
+                links.push(l);
             }
             let outer: Arc<Puppet<Src<V>>> = Puppet::new(world, id, "flatten", pspecs[id].clone(), items);
             let s = outer.source();
             puppets.insert(slot, Box::new(outer));
             puppets.extend(inner_puppets);
-            Arc::new(callbag::flatten(s))
+            ops.push(OpInst { kind: OpKind::Flatten(id), inputs: links, output: Link::Unknown });
+            (Arc::new(callbag::flatten(s)), Some(ops.len() - 1))
         },
         Node::Share(n) => {
-            let s = child(n, next_puppet, next_tap, puppets);
-            Arc::new(callbag::share(s))
+            let (s, l) = child(n, next_puppet, next_tap, puppets, ops);
+            ops.push(OpInst { kind: OpKind::Share, inputs: vec![l], output: Link::Unknown });
+            (Arc::new(callbag::share(s)), Some(ops.len() - 1))
         },
     }
 }
